@@ -1,5 +1,6 @@
 SPECIFICATION Spec
 CONSTANT NOpt = 1
+CONSTANT Reent = TRUE
 CONSTANT MaxReq = 7
 VIEW View
 INVARIANT NoViol
